@@ -26,7 +26,9 @@ def one(j):
         r = subprocess.run(['git', '-C', wt, 'apply', p], capture_output=True, text=True)
         if r.returncode != 0:
             return p, pid, 'patch-does-not-apply (code changed since)', ''
-        r = subprocess.run(['python3', V + '/checks/run.py', pid, '--tier', 'quick', '--repo', wt], capture_output=True, text=True)
+        r = subprocess.run(['python3', V + '/checks/run.py', pid, '--tier', 'quick', '--repo', wt], capture_output=True, text=True,
+                           env=dict(os.environ, VERIF_EVIDENCE_DIR=wt + '.evidence'))
+        shutil.rmtree(wt + '.evidence', ignore_errors=True)
         msg = '\n'.join(l[:300] for l in r.stdout.splitlines() if l.startswith(wt) or 'ANALYSIS-BROKEN' in l)[:1500]
         return p, pid, {0: 'silent', 1: 'FALSE-ALARM', 2: 'analysis-broken'}.get(r.returncode, str(r.returncode)), msg
     finally:
